@@ -153,8 +153,16 @@ func Values(t reflect.Type, depth int) []reflect.Value {
 		if t.NumMethod() != 0 {
 			return out // only the nil value for non-empty interfaces
 		}
+		one := 1
+		inner := reflect.New(Inner)
+		inner.Elem().Field(0).SetInt(4)
 		out = append(out, ifcValue(t, 3), ifcValue(t, "x"), ifcValue(t, ""), ifcValue(t, []interface{}{}), ifcValue(t, map[string]interface{}{"k": nil}),
-			ifcValue(t, []int{1}), ifcValue(t, reflect.New(Inner).Elem().Interface()))
+			ifcValue(t, []int{1}),
+			// further dynamic types: typed nil pointer, pointers, named type, widths, containers, array, nested interface data
+			ifcValue(t, (*int)(nil)), ifcValue(t, &one), ifcValue(t, inner.Interface()), ifcValue(t, SeedMyInt(3)), ifcValue(t, uint64(math.MaxUint64)), ifcValue(t, float32(0.5)),
+			ifcValue(t, true), ifcValue(t, map[string]int{"a": 1}), ifcValue(t, []string{}), ifcValue(t, [2]int{1, 2}), ifcValue(t, []interface{}{[]interface{}{nil}, map[string]interface{}{}}),
+			ifcValue(t, map[string]interface{}(nil)), ifcValue(t, int8(-8)), ifcValue(t, SeedMyStr("named")),
+			ifcValue(t, reflect.New(Inner).Elem().Interface()))
 	case reflect.Ptr:
 		if depth > 3 {
 			return out
